@@ -345,3 +345,25 @@ def expected_of_text(kind):
     return {'Q': ['r', 's', 't'], 'Sigma': ['a', 'b'], 'Gamma': ['_', 'a', 'b'],
             'delta': sorted([['s', 'a', 's', 'a', 'R'], ['s', '_', 's', '_', 'L'], ['s', 'b', 't', '_', 'R']]),
             'q0': 's', 'q_accept': 't', 'q_reject': 'r', 'blank': '_'}
+
+
+# ---------------------------------------------------------------- C12: derivations (reference validator)
+def derivation_justifications(cands, forms, start, word, dtype):
+    """forms: list of sentential forms (strings, upper case = variable). -> None if the shape is wrong (first form is not
+    the start variable / last form is not the word), else for every step the list of indices of candidate rules
+    (variable, rhs string) that justify it for the derivation type ('leftmost' | 'rightmost' | 'any')"""
+    if not forms or forms[0] != start or forms[-1] != word:
+        return None
+    steps = []
+    for f, g in zip(forms, forms[1:]):
+        varpos = [i for i, ch in enumerate(f) if ch.isupper()]
+        if dtype == 'leftmost':
+            varpos = varpos[:1]
+        elif dtype == 'rightmost':
+            varpos = varpos[-1:]
+        just = []
+        for idx, (X, rhs) in enumerate(cands):
+            if any(f[pos] == X and f[:pos] + rhs + f[pos + 1:] == g for pos in varpos):
+                just.append(idx)
+        steps.append(just)
+    return steps
